@@ -209,6 +209,9 @@ def main():
     job = json.loads(sys.stdin.read())
     if job["kind"] == "from_string":
         ans = run_from_string(job["calls"])
+    elif job["kind"] == "cases":
+        from . import c08
+        ans = c08.run_calls(job["calls"])
     elif job["kind"] == "files":
         ans = run_files(job["spec"], job["scratch"])[0]
     else:
